@@ -198,6 +198,8 @@ impl VersionManager {
                 .open(&temp_manifest_path)
                 .await?;
         }
+        #[cfg(feature = "verif")]
+        crate::verif::crash_point("manifest_tmp.created", &temp_manifest_path);
         // Write to tempfile
         let epoch = {
             let mut temp_manifest = Manifest::open(&temp_manifest_path, true).await?;
@@ -206,7 +208,11 @@ impl VersionManager {
         };
         // Rename this tempfile to manifest
         let manifest_path = manifest_dir_path.join(MANIFEST_FILE_NAME);
+        #[cfg(feature = "verif")]
+        crate::verif::crash_point("manifest_tmp.written", &temp_manifest_path);
         tokio::fs::rename(&temp_manifest_path, &manifest_path).await?;
+        #[cfg(feature = "verif")]
+        crate::verif::crash_point("manifest.renamed", &manifest_path);
         manifest.reopen(&manifest_path).await?;
         Ok(epoch)
     }
@@ -292,8 +298,14 @@ impl VersionManager {
             }
         }
 
+        #[cfg(feature = "verif")]
+        crate::verif::point("commit.before_append", &[current_epoch]).await;
+
         // Persist the change onto the disk.
         manifest.append(&entries).await?;
+
+        #[cfg(feature = "verif")]
+        crate::verif::point("commit.before_publish", &[current_epoch]).await;
 
         // Add epoch number and make the modified snapshot available.
         let mut inner = self.inner.lock();
@@ -304,6 +316,34 @@ impl VersionManager {
         inner
             .rowset_deletion_to_apply
             .insert(epoch, rowset_deletion_to_apply);
+        #[cfg(feature = "verif")]
+        {
+            // [epoch, (kind, table, id)*]; kind: 0 create table, 1 drop table, 2 add rowset,
+            // 3 delete rowset, 4 add dv, 5 delete dv
+            let mut args = vec![epoch];
+            for e in &entries {
+                match e {
+                    ManifestOperation::CreateTable(_) => args.extend([0, 0, 0]),
+                    ManifestOperation::DropTable(e) => {
+                        args.extend([1, e.table_id.table_id as u64, 0])
+                    }
+                    ManifestOperation::AddRowSet(e) => {
+                        args.extend([2, e.table_id.table_id as u64, e.rowset_id as u64])
+                    }
+                    ManifestOperation::DeleteRowSet(e) => {
+                        args.extend([3, e.table_id.table_id as u64, e.rowset_id as u64])
+                    }
+                    ManifestOperation::AddDV(e) => {
+                        args.extend([4, e.table_id.table_id as u64, e.dv_id])
+                    }
+                    ManifestOperation::DeleteDV(e) => {
+                        args.extend([5, e.table_id.table_id as u64, e.dv_id])
+                    }
+                    _ => {}
+                }
+            }
+            crate::verif::event("commit", &args);
+        }
 
         Ok(epoch)
     }
@@ -313,6 +353,8 @@ impl VersionManager {
         let mut inner = self.inner.lock();
         let epoch = inner.epoch;
         *inner.ref_cnt.entry(epoch).or_default() += 1;
+        #[cfg(feature = "verif")]
+        crate::verif::event("pin", &[epoch]);
         Arc::new(Version {
             epoch,
             snapshot: inner.status.get(&epoch).unwrap().clone(),
@@ -350,6 +392,13 @@ impl VersionManager {
         inner
             .rowset_deletion_to_apply
             .retain(|k, _| !can_apply(*k, vacuum_epoch));
+        #[cfg(feature = "verif")]
+        for deletion in &deletions {
+            crate::verif::event(
+                "vacuum_select",
+                &[deletion.0 as u64, deletion.1 as u64, vacuum_epoch],
+            );
+        }
         for deletion in &deletions {
             if let Some(rowset) = inner.rowsets.remove(deletion) {
                 match Arc::try_unwrap(rowset) {
@@ -374,9 +423,19 @@ impl VersionManager {
                 .path
                 .join(format!("{}_{}", table_id, rowset_id));
             info!("vacuum {}_{}", table_id, rowset_id);
+            #[cfg(feature = "verif")]
+            crate::verif::point("vacuum.before_unlink", &[table_id as u64, rowset_id as u64]).await;
+            #[cfg(feature = "verif")]
+            crate::verif::crash_point("vacuum.before_unlink", &path);
+            #[cfg(feature = "verif")]
+            let verif_path = path.clone();
             if !self.storage_options.disable_all_disk_operation {
                 tokio::fs::remove_dir_all(path).await?;
             }
+            #[cfg(feature = "verif")]
+            crate::verif::crash_point("vacuum.after_unlink", &verif_path);
+            #[cfg(feature = "verif")]
+            crate::verif::event("vacuum_unlinked", &[table_id as u64, rowset_id as u64]);
         }
 
         Ok(())
@@ -408,6 +467,8 @@ impl Drop for Version {
     /// Unpin a snapshot of one epoch. When reference counter becomes 0, files might be vacuumed.
     fn drop(&mut self) {
         let mut inner = self.inner.lock();
+        #[cfg(feature = "verif")]
+        crate::verif::event("unpin", &[self.epoch]);
         let ref_cnt = inner
             .ref_cnt
             .get_mut(&self.epoch)
